@@ -1111,3 +1111,171 @@ Proof.
   - destruct (release ix x); injection E as <- <- <- <-; noinc.
   - destruct cur; try discriminate. destruct (release ix x); injection E as <- <- <- <-; noinc.
 Qed.
+
+(* ------------------------------------------------------------------ termination *)
+
+(* ---- a measure that every non-retry step decreases ---- *)
+
+Definition is_create (p : proc) : nat := match p with PWrite _ true => 1 | _ => 0 end.
+Definition creates (a : actor) : nat :=
+  list_sum (map is_create (a_prog a)) + match a_ctl a with CAcqT _ true => 1 | _ => 0 end.
+
+(* weight of a not yet visited element of the current visit *)
+Definition alpha (p : proc) : nat := match p with PTrunc _ _ _ _ _ => 40 | _ => 20 end.
+Definition cost (N : nat) (p : proc) : nat :=
+  match p with PWrite _ _ | PById _ _ => 5 | _ => alpha p * N + 7 end.
+
+Definition djc (st : djst) : nat :=
+  match st with DjLock => 10 | DjSize => 9 | DjUnlockSz => 8 | DjDelete => 8 | DjUnlock2 => 7 end.
+
+Definition stage (N : nat) (a : actor) : nat :=
+  let f := a_f a in
+  let base := alpha (a_cur a) * length (f_rest f) + 10 * length (f_gl f) + length (f_vis f) + length (f_res f) in
+  match a_ctl a with
+  | CIdle => 0
+  | CAcqT _ _ | CAcqI _ _ => 4
+  | CHold l => 2 + length l
+  | CRel l => 1 + length l
+  | CSel => alpha (a_cur a) * N + 6
+  | CNext => base + 5
+  | CTry _ => base + (alpha (a_cur a) - 5)
+  | CCb _ => base + (alpha (a_cur a) - 8)
+  | CRelF _ => base + 7
+  | CDj _ st false => base + 8 + djc st
+  | CFin => base + 4
+  | CGNext => 10 * length (f_gl f) + 3
+  | CGAcq _ => 10 * length (f_gl f) + 12
+  | CGCb _ => 10 * length (f_gl f) + 11
+  | CDj _ st true => 10 * length (f_gl f) + djc st
+  | CGRel _ => 10 * length (f_gl f) + 4
+  end.
+
+Definition meas (N : nat) (a : actor) : nat := list_sum (map (cost N) (a_prog a)) + stage N a.
+
+Lemma remove1_length c l : In c l -> length l = S (length (remove1 c l)).
+Proof.
+  induction l as [|w l IH]; intros H; [destruct H|]. cbn [remove1].
+  destruct (Nat.eqb c w) eqn:E; [reflexivity|]. destruct H as [->|H]; [rewrite Nat.eqb_refl in E; discriminate|].
+  cbn [length]. rewrite (IH H). reflexivity.
+Qed.
+
+Lemma pick_length c l x r : pick c l = Some (x, r) -> length l = S (length r).
+Proof.
+  unfold pick. destruct l as [|y t]; [discriminate|]. destruct (existsb (Nat.eqb c) (y :: t)) eqn:E; intros H; injection H as <- <-; [|reflexivity].
+  apply existsb_exists in E. destruct E as (z & Hz & Ez). apply Nat.eqb_eq in Ez. subst z.
+  exact (remove1_length c (y :: t) Hz).
+Qed.
+
+Lemma sel_length ix m : length (sel ix m) <= length ix.
+Proof.
+  unfold sel. assert (H : forall (g : nat -> bool) l, length (filter g l) <= length l).
+  { intros g l. induction l as [|x l IH]; cbn; [lia|]. destruct (g x); cbn; lia. }
+  etransitivity; [apply H|]. rewrite seq_length. lia.
+Qed.
+
+Ltac ms := unfold meas, stage, creates, cost, list_sum, with_ctl, with_cf, f_visit, f_set_rest, f_count, f_fail, f_keep, f_glob, f_set_gl, frame0, djc, alpha, start;
+  cbn [a_ctl a_cur a_f a_lost a_prog f_rest f_vis f_res f_gl f_n f_err map fold_right is_create length];
+  cbv beta iota; rewrite ?app_length; cbn [length]; try lia.
+
+Lemma astep_meas ix a c ix' a' pn : wf a -> astep ix a c = (ix', a', pn, Moved) ->
+  forall N, length ix <= N ->
+  meas N a' < meas N a /\ length ix' + creates a' <= length ix + creates a /\ length ix <= length ix'.
+Proof.
+  intros W E N HN. destruct a as [prog cur ctl f lost]. unfold astep in E. cbn [a_ctl a_prog a_cur a_f a_lost] in E.
+  unfold wf in W. cbn [a_ctl a_cur a_f] in W.
+  destruct ctl.
+  - destruct prog as [|q rest]; [discriminate|]. injection E as <- <- <-. destruct q as [t cr| | | |]; try destruct cr; ms.
+  - unfold acq_tags in E. destruct (find_tag ix tag) as [x|]; [destruct (get ix x) as [td|]; [destruct (t_excl td)|]|destruct create];
+    try discriminate; injection E as <- <- <-; rewrite ?length_upd, ?app_length; try destruct create; ms.
+  - unfold acq_id in E. destruct (get ix p) as [td|]; [destruct (t_excl td)|]; try discriminate; injection E as <- <- <-;
+    destruct lock; rewrite ?length_upd; ms.
+  - injection E as <- <- <-. destruct l; ms.
+  - destruct l as [|x l]; [injection E as <- <- <-; ms|]. unfold release in E.
+    destruct (get ix x) as [td|]; [destruct (t_excl td); [|destruct (t_readers td <=? 0)%Z]|]; injection E as <- <- <-; rewrite ?length_upd; destruct l; ms.
+  - destruct W as (V & ->). pose proof (sel_length ix (p_m cur)) as SL.
+    destruct (p_skip cur); injection E as <- <- <-; rewrite ?inc_all_shiftl, ?length_shiftl; destruct cur; try discriminate; ms.
+  - destruct (pick c (f_rest f)) as [[x rest]|] eqn:P.
+    + pose proof (pick_length _ _ _ _ P) as PL. destruct (p_skip cur).
+      * injection E as <- <- <-. destruct cur; try discriminate; ms.
+      * unfold wacq in E. destruct (get ix x) as [td|]; [destruct (t_excl td)|]; injection E as <- <- <-; rewrite ?length_upd; destruct cur; try discriminate; ms.
+    + injection E as <- <- <-. destruct cur; try discriminate; ms.
+  - unfold wacq in E. destruct (get ix x) as [td|]; [destruct (t_excl td)|]; try discriminate; injection E as <- <- <-; rewrite ?length_upd; destruct cur; try discriminate; ms.
+  - destruct W as (V & Hin). injection E as <- <- <-. unfold callback, trunc_cont. cbn [a_cur a_f with_cf f_glob f_n].
+    destruct cur; try discriminate.
+    + destruct (opt_is abort (f_n f)); ms.
+    + destruct (opt_is failat (f_n f)); [destruct gj_releases_failed|destruct (Nat.eqb (S (length (f_res f))) limit)]; ms.
+    + destruct (mem (tag_of ix x) zero); [ms|]. destruct (opt_is cancel (f_n f)); ms.
+  - assert (CUR : glob = false -> is_trunc cur = true) by (intros ->; destruct W; auto).
+    destruct st.
+    + unfold lockx in E. destruct (get ix x) as [td|]; [destruct (negb (t_excl td) && (t_readers td =? 1)%Z)|]; injection E as <- <- <-; rewrite ?length_upd;
+      unfold dj_done, trunc_cont; destruct glob; try (specialize (CUR eq_refl); destruct cur; try discriminate; cbn [a_cur a_f]; try destruct (opt_is cancel (f_n f))); ms.
+    + injection E as <- <- <-. destruct (mem (tag_of ix x) match cur with PTrunc _ _ sz _ _ => sz | _ => [] end); destruct glob; ms.
+    + unfold unlockx in E. destruct (get ix x) as [td|]; [destruct (negb (t_excl td) || negb (t_readers td =? 1)%Z)|]; injection E as <- <- <-; rewrite ?length_upd;
+      unfold dj_done, trunc_cont; destruct glob; try (specialize (CUR eq_refl); destruct cur; try discriminate; cbn [a_cur a_f]; try destruct (opt_is cancel (f_n f))); ms.
+    + injection E as <- <- <-. unfold delete. destruct (get ix x) as [td|]; [destruct (t_excl td)|]; cbn [fst]; rewrite ?length_upd; destruct glob; ms.
+    + unfold unlockx in E. destruct (get ix x) as [td|]; [destruct (negb (t_excl td) || negb (t_readers td =? 1)%Z)|]; injection E as <- <- <-; rewrite ?length_upd;
+      unfold dj_done, trunc_cont; destruct glob; try (specialize (CUR eq_refl); destruct cur; try discriminate; cbn [a_cur a_f]; try destruct (opt_is cancel (f_n f))); ms.
+  - injection E as <- <- <-. rewrite dec_ptr_shiftl, length_shiftl. unfold after_visit. cbn [a_cur a_f]. destruct cur; try discriminate.
+    + destruct norel; ms.
+    + destruct (f_err f); ms.
+    + destruct glob; ms.
+  - destruct (f_gl f) eqn:GL; injection E as <- <- <-; ms; rewrite GL; ms.
+  - unfold acq_id in E. destruct (get ix x) as [td|]; [destruct (t_excl td)|]; try discriminate; injection E as <- <- <-; rewrite ?length_upd; ms.
+  - injection E as <- <- <-. ms.
+  - unfold release in E. destruct (get ix x) as [td|]; [destruct (t_excl td); [|destruct (t_readers td <=? 0)%Z]|]; injection E as <- <- <-; rewrite ?length_upd; ms.
+  - destruct cur; try discriminate. unfold release in E. destruct (get ix x) as [td|]; [destruct (t_excl td); [|destruct (t_readers td <=? 0)%Z]|]; injection E as <- <- <-; rewrite ?length_upd; ms.
+Qed.
+
+Definition ncre (s : state) : nat := list_sum (map creates (s_acts s)).
+Definition bound (s : state) : nat := length (s_ix s) + ncre s.
+Definition total (N : nat) (acts : list actor) : nat := list_sum (map (meas N) acts).
+Definition Msr (s : state) : nat := total (bound s) (s_acts s).
+
+Lemma sum_set_nth (g : actor -> nat) acts i a a' : nth_error acts i = Some a ->
+  list_sum (map g (set_nth acts i a')) + g a = list_sum (map g acts) + g a'.
+Proof.
+  unfold list_sum. revert i. induction acts as [|b acts IH]; intros [|i] H; cbn [set_nth map fold_right nth_error] in *; try discriminate.
+  - injection H as ->. lia.
+  - specialize (IH i H). lia.
+Qed.
+
+Lemma cost_mono N N' p : N' <= N -> cost N' p <= cost N p.
+Proof. intros H. unfold cost, alpha. destruct p; try lia; nia. Qed.
+
+Lemma meas_mono N N' a : N' <= N -> meas N' a <= meas N a.
+Proof.
+  intros H. unfold meas. apply Nat.add_le_mono.
+  - unfold list_sum. induction (a_prog a) as [|p l IH]; cbn [map fold_right]; [lia|]. pose proof (cost_mono N N' p H). lia.
+  - unfold stage. destruct (a_ctl a); try lia. unfold alpha. destruct (a_cur a); nia.
+Qed.
+
+Lemma total_mono N N' acts : N' <= N -> total N' acts <= total N acts.
+Proof.
+  intros H. unfold total, list_sum. induction acts as [|a l IH]; cbn [map fold_right]; [lia|]. pose proof (meas_mono N N' a H). lia.
+Qed.
+
+Lemma mstep_decreases s i c : Inv s -> snd (mstep_f s i c) = Moved -> Msr (mstep s (i, c)) < Msr s.
+Proof.
+  intros I. unfold mstep, mstep_f. cbn [fst snd]. destruct (nth_error (s_acts s) i) as [a|] eqn:Ha; [|discriminate].
+  destruct (astep (s_ix s) a c) as [[[ix' a'] pn] r] eqn:E. cbn [fst snd]. intros ->.
+  assert (HN : length (s_ix s) <= bound s) by (unfold bound; lia).
+  destruct (astep_meas _ _ _ _ _ _ (proj1 (i_wf _ I i a Ha)) E (bound s) HN) as (Hm & Hc & _).
+  unfold Msr, bound, ncre. cbn [s_ix s_acts].
+  pose proof (sum_set_nth creates (s_acts s) i a a' Ha) as SC.
+  pose proof (sum_set_nth (meas (bound s)) (s_acts s) i a a' Ha) as SM.
+  set (N' := length ix' + list_sum (map creates (set_nth (s_acts s) i a'))).
+  assert (N' <= bound s) by (unfold N', bound, ncre; lia).
+  pose proof (total_mono (bound s) N' (set_nth (s_acts s) i a') H). unfold total in *. unfold bound, ncre in *. lia.
+Qed.
+
+Lemma terminates_n n : forall s, Inv s -> Msr s <= n -> exists sched, all_finished (trun sched s) = true.
+Proof.
+  induction n as [|n IH]; intros s I H; destruct (all_finished s) eqn:F; try (exists []; exact F).
+  - destruct (inv_progress s I F) as (i & c & Mv). pose proof (mstep_decreases s i c I Mv). lia.
+  - destruct (inv_progress s I F) as (i & c & Mv). pose proof (mstep_decreases s i c I Mv) as D.
+    destruct (IH (mstep s (i, c)) (mstep_inv s (i, c) I) ltac:(lia)) as (sched & Hs).
+    exists ((i, c) :: sched). exact Hs.
+Qed.
+
+Lemma inv_terminates s : Inv s -> exists sched, all_finished (trun sched s) = true.
+Proof. intros I. exact (terminates_n (Msr s) s I (le_n _)). Qed.
